@@ -552,3 +552,26 @@ pub proof fn lemma_id_stored()
 {
     lemma_rlp_str_stored(V4());
 }
+
+// ---- small-length facts used by the builder's size window ----
+pub proof fn lemma_hdr_len_small(list: bool, n: nat)
+    ensures
+        n < 56 ==> hdr(list, n).len() == 1,
+        56 <= n < 256 ==> hdr(list, n).len() == 2,
+        256 <= n < 65536 ==> hdr(list, n).len() == 3,
+        hdr(list, n).len() >= 1,
+{
+    reveal_with_fuel(be_trim, 4);
+    if 56 <= n && n < 256 {
+        assert(n / 256 == 0);
+    } else if 256 <= n && n < 65536 {
+        assert(n / 256 > 0 && n / 256 < 256);
+        assert(n / 256 / 256 == 0);
+    }
+}
+pub proof fn lemma_rlp_str_len_small(b: Seq<u8>)
+    requires b.len() < 65536,
+    ensures b.len() <= rlp_str(b).len() <= b.len() + 3, rlp_str(b).len() >= 1,
+{
+    lemma_hdr_len_small(false, b.len());
+}
